@@ -360,6 +360,32 @@ def r1_4(ctx, R):
                     between = d.reachable(w) & _can_reach(d, pb)
                     if not any(pbb in between for pbb, _, _ in pops):
                         wake_ok = True
+            if not (empty_ok or wake_ok):
+                # a join with infeasible arms may lie between the wake and the return (helper returning an enum that is
+                # matched again): decide per flag/variant-feasible path
+                from lib_flow import sensitive_paths
+                pop_bbs = {pbb for pbb, _, _ in pops}
+                arrivals = 0
+                allok = True
+                try:
+                    for kind_, path, know in sensitive_paths(d, fl, 2):
+                        for i, bb_ in enumerate(path):
+                            if bb_ != pb:
+                                continue
+                            arrivals += 1
+                            lastpop = max([j for j in range(i) if path[j] in pop_bbs] or [-1])
+                            woke = any(path[j] in wakes for j in range(lastpop + 1, i))
+                            empt = False
+                            for pbb, pt, pfn in pops:
+                                dest = place_str(pt["dest"])
+                                if know[i].get(dest) in _empty_variants(ctx, R, pt["dest"]["ty"]):
+                                    empt = True
+                            if not (woke or empt):
+                                allok = False
+                except RuntimeError:
+                    allok = False
+                if arrivals and allok:
+                    wake_ok = True
             kind = "empty-arm" if empty_ok else ("self-wake" if wake_ok else "NONE")
             ctx.ob("R1.4", d, "pending-return#%d" % pending_assign_blocks(d).index(pb), empty_ok or wake_ok, d.loc(pb),
                    "justification: %s" % kind)
